@@ -40,8 +40,18 @@ Mutants this was built against (scratch worktree, never /repo):
     dropped)                                                            -> caught
  M7 _do_generate_text_key_index sorts expected parents by revision id instead of
     candidate order                                                     -> caught (check() verdict)
+ M8 carry-over test ignores parent_id (`parent_entry.parent_id != entry_parent_id` dropped) -> caught
+ M9 symlink carry-over ignores the target                                -> caught
  H1 harmless: heads preserved-order loop rewritten as a list comprehension,
     `set(head_candidates)` -> `frozenset(...)`                          -> clean
+
+Finding on the unchanged code, family `revgraph-heads-readded-file-id` (knit formats `rich-root`,
+`knit`, …: VersionedFileCommitBuilder._heads takes heads in the *revision* graph): a file id that
+was removed and re-added, merged with a branch still holding the old version, gets stored per-file
+parents that Repository.check() reports as inconsistent.  corpus/C02/knit-readded-id.json; the
+model describes the per-file behaviour (PackCommitBuilder); histories in which only failures of
+this family occur are reported by the oracle and not counted as a correspondence failure.
+A crash inside merge_from_branch (tree transform, e.g. NoFinalPath) is counted and skipped.
 """
 import hashlib
 import os
